@@ -2,7 +2,7 @@
 import json
 from fractions import Fraction
 from harness import smlib as S
-from harness.common import pmap, lean_query, guard, fr, safe_judge
+from harness.common import pmap, lean_query, guard, fr, safe_judge, persist, persist_rule
 from harness.c01 import chunks
 
 LEVEL = "translation_validation"
@@ -21,10 +21,11 @@ def impl_one(case):
     from socialchoicekit.elicitation_utils import IntegerValuationProfileElicitor
     from socialchoicekit.profile_utils import StrictCompleteProfile, IntegerValuationProfile
     dt = np.float64 if case.get("float_ranks") else np.int64
-    P1 = StrictCompleteProfile.of(np.array(case["P1"], dtype=dt))
-    P2 = StrictCompleteProfile.of(np.array(case["P2"], dtype=dt))
+    from harness.common import relayout
+    P1 = persist("dtsfP1", relayout(np.array(case["P1"], dtype=dt)), StrictCompleteProfile.of)
+    P2 = persist("dtsfP2", relayout(np.array(case["P2"], dtype=dt)), StrictCompleteProfile.of)
     mk = lambda V: IntegerValuationProfileElicitor(IntegerValuationProfile.of(np.array(V, dtype=np.int64)))
-    rule = DoubleLambdaTSF(case["lam1"], case["lam2"], zero_indexed=case["zero"])
+    rule = persist_rule(("dtsf", case["lam1"], case["lam2"], case["zero"]), lambda: DoubleLambdaTSF(case["lam1"], case["lam2"], zero_indexed=case["zero"]))
     sim = rule.get_simulated_cardinal_profiles(P1, P2, mk(case["V1"]), mk(case["V2"]))
     out = rule.scf(P1, P2, mk(case["V1"]), mk(case["V2"]))
     return {"pairs": [[int(a), int(b)] for a, b in out], "S1": [[int(x) for x in row] for row in sim[0]], "S2": [[int(x) for x in row] for row in sim[1]]}
